@@ -1,4 +1,4 @@
 SPECIFICATION Spec
 CONSTANTS MaxFiles = 2
-INVARIANTS TypeOK EachSourceOnce Mirror FreshOutputIsSafe SyncCoversAll KnownOnlyInPlace Emit
+INVARIANTS TypeOK EachSourceOnce Mirror FreshOutputIsSafe SyncCoversAll RefuseOnlyInPlace Emit
 CHECK_DEADLOCK FALSE
